@@ -1,6 +1,7 @@
 import CogentModel.Json
 import CogentModel.Model.Calculator
 import CogentModel.Model.Controller
+import CogentModel.Model.ParamRules
 open CogentModel CogentModel.Calc
 
 /-- the integer hash-combine calc used by the correspondence harness:
@@ -109,8 +110,76 @@ def ctlRun (g : Ctl.Graph Int) : Ctl.St Int → List (Ctl.Op Int) → List J
   | _, [] => []
   | s, o :: os => let s' := Ctl.step g s o; ctlSnap g s' :: ctlRun g s' os
 
+/-! ### scoped parameter rules model -/
+
+def optRat (j : J) : Except String (Option Rat) :=
+  match j with
+  | .null => pure none
+  | x => do pure (some (← x.toRat))
+
+def optField (j : J) (k : String) : J := (j.get? k).getD .null
+
+def parseRuleArgs (j : J) : Except String Rules.RuleArgs := do
+  let edges ← match optField j "edges" with
+    | .null => pure none
+    | x => do pure (some (← x.toListOf J.toNat))
+  let ind ← match optField j "is_independent" with
+    | .null => pure none
+    | x => do pure (some (← x.toBool))
+  let c ← match optField j "is_constant" with
+    | .null => pure false
+    | x => x.toBool
+  pure { edges := edges, isIndependent := ind, isConstant := c,
+         value := ← optRat (optField j "value"), init := ← optRat (optField j "init"),
+         lower := ← optRat (optField j "lower"), upper := ← optRat (optField j "upper") }
+
+def oRatJ : Option Rat → J
+  | none => .null
+  | some q => J.ofRat q
+
+def ruleJ (r : Rules.RuleArgs) : J :=
+  J.obj [("edges", match r.edges with
+                   | none => .null
+                   | some es => J.ofList J.ofNat es),
+         ("is_independent", match r.isIndependent with
+                            | none => .null
+                            | some b => .bool b),
+         ("is_constant", .bool r.isConstant), ("value", oRatJ r.value), ("init", oRatJ r.init),
+         ("lower", oRatJ r.lower), ("upper", oRatJ r.upper)]
+
+def rulesSnap (d : Rules.Defn) (s : Rules.St) : J :=
+  J.obj [("rules", J.ofList ruleJ (Rules.exportRules d s)), ("nfp", J.ofNat (Rules.nfp d s)),
+         ("classes", J.ofList J.ofNat ((List.range d.nEdges).map s.asg))]
+
+def rulesFreeze (d : Rules.Defn) (s : Rules.St) : Rules.St :=
+  let a := (Array.range d.nEdges).map s.asg
+  let st := (Array.range s.next).map s.store
+  { s with asg := fun e => a.getD e (s.asg e), store := fun i => st.getD i (.var d.dLo d.dVal d.dHi) }
+
+def rulesRun (d : Rules.Defn) : Rules.St → List Rules.RuleArgs → List J
+  | _, [] => []
+  | s, r :: rs =>
+    match Rules.setRule d s r with
+    | .error e => J.obj [("err", .str e)] :: rulesRun d s rs
+    | .ok s' => let s'' := rulesFreeze d s'; rulesSnap d s'' :: rulesRun d s'' rs
+
 def handle (cmd : String) (j : J) : Except String J :=
   match cmd with
+  | "rules" => do
+    let d : Rules.Defn := { nEdges := ← (← j.get "n").toNat, dLo := ← (← j.get "lo").toRat,
+                            dVal := ← (← j.get "val").toRat, dHi := ← (← j.get "hi").toRat,
+                            indepDefault := ← (← j.get "indep").toBool }
+    let ops ← (← j.get "ops").toListOf parseRuleArgs
+    let s0 := Rules.fresh d
+    let steps := rulesRun d s0 ops
+    -- the state after the history, and the round trip of its exported rules on a fresh state
+    let sEnd := ops.foldl (fun s r => match Rules.setRule d s r with
+      | .ok s' => rulesFreeze d s'
+      | .error _ => s) s0
+    let rt := match Rules.applyRules d (Rules.fresh d) (Rules.exportRules d sEnd) with
+      | .ok s' => rulesSnap d (rulesFreeze d s')
+      | .error e => J.obj [("err", .str e)]
+    pure (J.obj [("init", rulesSnap d s0), ("steps", J.arr steps), ("final", rulesSnap d sEnd), ("roundtrip", rt)])
   | "ctl" => do
     let g ← (← j.get "defns").toListOf parseDefn
     let s0 ← (← j.get "settings").toListOf J.toInt
